@@ -25,7 +25,14 @@ func (g *wgen) params(spring bool) string {
 			}
 			if r.Chance(1, 6) {
 				g.use("annotation-on-parameter")
-				p += g.anno(1) + " "
+				switch r.Intn(3) {
+				case 0:
+					p += g.anno(1) + " "
+				case 1:
+					p = g.anno(1) + " " + p
+				default:
+					p = g.anno(1) + " final " + g.anno(0) + " "
+				}
 			}
 		}
 		nm := g.pname() + itoa(i)
